@@ -147,6 +147,9 @@ func (t *ktr) decodeStmt(s ast.Stmt) ([]kStmt, bool) {
 				if rt := t.typeOf(t.info.Types[call].Type, call); rt != op.res {
 					t.fail(call, "opaque call `%s` returns a %s (the table has %s)", fun, rt, op.res)
 				}
+				for _, c := range op.causes {
+					t.regCause(c)
+				}
 				term := op.lean
 				for i, a := range call.Args {
 					as, aty := t.expr(a)
